@@ -23,3 +23,10 @@ plan("C10", [("lifecycle", 8, 60), ("valset", 2, 10)],
      rule="every provider block, after BeginBlock and after EndBlock: phase-graph reachability per consumer id, initialized<=>spawn time, "
           "spawn-queue content vs phases, launch rule against the queue of the previous block, launch artefacts; "
           "distinct = (segment, transition) and due-bucket sizes")
+
+plan("C04", [("valset", 8, 60)], tests=["TestC04Vectors"],
+     minobs={"power-cap-vectors": 10000, "set-cap-vectors": 3000, "capped-set-evaluations": 20, "power-capped-set-evaluations": 20},
+     rule="(a) generated validator multisets (sizes 1-200; shapes: ones, small, ties, geometric, one whale, near 2^53, near MaxTotalVotingPower/n; "
+          "p in 1..100; k in 0..n+1; priority lists inside/outside the set) through the exported functions of the real keeper, judged by "
+          "arbitrary-precision closed-form predicates; (b) the same predicates on every stored consumer set with a cap in the valset worlds; "
+          "distinct = (size bucket, p bucket, shape, achievable?) and (size bucket, k vs n, #priority)")
